@@ -140,6 +140,11 @@ func checkC16(c c16Case) string {
 		return fmt.Sprintf("%s writer failed: %v", c.Format, err)
 	}
 	out := buf.Bytes()
+	// 0. the list itself written a second time gives the same bytes (the writer leaves it alone)
+	var again bytes.Buffer
+	if err := write(s, &again); err != nil || !bytes.Equal(again.Bytes(), out) {
+		return fmt.Sprintf("%s: writing the same list a second time gives other bytes than the first time (err %v; first instants %v)", c.Format, err, c.Instants[:2])
+	}
 	// 1. rendered fields: within the grammar, equal to the floor of the instant
 	rendered := make([]int64, 0, 2*n)
 	if re != nil {
